@@ -66,5 +66,7 @@ fn main() {
                 writeln!(out, "PANIC {}", loc).unwrap()
             }
         }
+        // one answer per case, visible at once: the driver finds the case that hangs by the first missing answer
+        out.flush().unwrap();
     }
 }
